@@ -336,8 +336,45 @@ theorem itoa_run (max n : Nat) (a : List Nat) (ret r : Nat) (hn : 0 < n)
 theorem set_at' (a r : List Nat) (x y i : Nat) (h : a.length = i) :
     (a ++ x :: r).set i y = a ++ y :: r := by subst h; exact set_at a r x y
 
-theorem itoa_spec (v : Int) (max : Nat) (lo : -2 ^ 63 < v) (hlen : (itoaSpec v).length < max) :
+theorem minStr_eq : minStr = [45,57,50,50,51,51,55,50,48,51,54,56,53,52,55,55,53,56,48,56] := by decide
+
+theorem digits_min : digits (2 ^ 63) = [57,50,50,51,51,55,50,48,51,54,56,53,52,55,55,53,56,48,56] := by
+  simp [digits]
+
+/-- the `snprintf` path for `INT64_MIN` when all 20 characters fit -/
+theorem write_minStr (t : List Nat) :
+    (List.range 20).foldl (fun m i => m.set (pad + i) (minStr.getD i 0)) (List.replicate 29 fill ++ t)
+      = List.replicate pad fill ++ minStr ++ (fill :: t) := by
+  rw [minStr_eq]
+  simp [List.range_succ, List.replicate_succ, pad, fill]
+
+theorem itoa_spec_min (max : Nat) (hlen : 20 < max) :
+    cstr (itoa (-(2 ^ 63 : Int)) max).2 = minStr ∧ (itoa (-(2 ^ 63 : Int)) max).1 = 20 := by
+  unfold itoa
+  have h1 : ¬ max < 1 := by omega
+  have h2 : ¬ max = 0 := by omega
+  have h3 : min (max - 1) 20 = 20 := by omega
+  have e : Mem.init max = List.replicate 29 fill ++ List.replicate (max + 2 * pad - 29) fill := by
+    simp only [Mem.init, List.replicate_append_replicate]; congr 1; simp only [pad]; omega
+  simp only [h1, h2, h3, if_false, if_true, show ¬ (-(2 ^ 63 : Int) = 0) by decide, e, write_minStr]
+  refine ⟨?_, trivial⟩
+  have e2 : List.replicate pad fill ++ minStr ++ fill :: List.replicate (max + 2 * pad - 29) fill
+      = (List.replicate pad fill ++ minStr) ++ fill :: List.replicate (max + 2 * pad - 29) fill := by simp
+  rw [e2, set_at' _ _ _ _ _ (by simp [minStr_eq])]
+  exact cstr_spec _ _ _ (by simp) (by rw [minStr_eq]; decide)
+
+theorem itoa_spec (v : Int) (max : Nat) (lo : -2 ^ 63 ≤ v) (hlen : (itoaSpec v).length < max) :
     cstr (itoa v max).2 = itoaSpec v ∧ (itoa v max).1 = (itoaSpec v).length := by
+  by_cases hmin0 : v = -(2 ^ 63 : Int)
+  · subst hmin0
+    have e : itoaSpec (-(2 ^ 63 : Int)) = minStr := by
+      have : (-(2 ^ 63 : Int)).natAbs = 2 ^ 63 := by decide
+      simp only [itoaSpec, show (-(2 ^ 63 : Int)) < 0 by decide, if_true, this, digits_min, minStr_eq]
+    rw [e] at hlen ⊢
+    have hl : minStr.length = 20 := by rw [minStr_eq]; rfl
+    rw [hl] at hlen ⊢
+    exact itoa_spec_min max hlen
+  have lo : -2 ^ 63 < v := by omega
   have hA : (List.replicate pad fill).length = pad := by simp
   unfold itoaSpec at *
   unfold itoa
@@ -447,5 +484,26 @@ theorem hex2bin_bin2hex (bs : Bytes) (max : Nat) (hwf : ∀ b ∈ bs, b < 256) (
   have : ¬ ((bin2hex bs).length % 2 = 1) := by rw [bin2hex_length]; omega
   simp only [this, if_false]
   exact hex2binAux_bin2hex bs max hwf hlen
+
+theorem digits_length_le (k n : Nat) (h : n < 10 ^ (k + 1)) : (digits n).length ≤ k + 1 := by
+  induction k generalizing n with
+  | zero => rw [digits]; simp at h; simp [h]
+  | succ k ih =>
+    rw [digits]; split
+    · simp
+    · have : n / 10 < 10 ^ (k + 1) := by
+        rw [Nat.div_lt_iff_lt_mul (by decide)]
+        calc n < 10 ^ (k + 1 + 1) := h
+          _ = 10 ^ (k + 1) * 10 := by rw [Nat.pow_succ]
+      have := ih (n / 10) this
+      simp; omega
+
+theorem itoaSpec_length_lt (v : Int) (lo : -2 ^ 63 ≤ v) (hi : v < 2 ^ 63) : (itoaSpec v).length < 21 := by
+  have h19 : v.natAbs < 10 ^ (18 + 1) := by
+    have : (2 : Nat) ^ 63 < 10 ^ (18 + 1) := by decide
+    omega
+  have := digits_length_le 18 v.natAbs h19
+  unfold itoaSpec
+  split <;> simp <;> omega
 
 end IwModel.Conv
